@@ -149,10 +149,10 @@ def gen_with(case, f, api='full', func_api=False):
         return ['err', type(e).__name__], cat
 
 
-def gen_ref(case, f):
+def gen_ref(case, f, identity=False):
     from genshi.template import MarkupTemplate
     try:
-        tree, ref = G.reference(case['tmpl'], f, case['cfg'])
+        tree, ref = G.reference(case['tmpl'], f, case['cfg'], identity=identity)
     except (ValueError, KeyError) as e:
         return ['norefer', type(e).__name__]
     try:
@@ -332,7 +332,7 @@ def oracle_case(case):
     api = case.get('api', 'full')
     f = G.make_catalogue(kind, seed)
     w, cat = gen_with(case, f, api=api, func_api=(api == 'func'))
-    r = gen_ref(case, f)
+    r = gen_ref(case, f, identity=(kind == 'id'))
     if r[0] == 'norefer':
         return None          # the catalogue's answer is outside the stated family for this message
     if r[0] == 'err':
@@ -356,7 +356,7 @@ def oracle_case(case):
             bad('catalogue %s: placeholders are replaced by the original elements, each once, in the translator\'s order' % kind,
                 _clip(r), _clip(w))
     if kind != 'id' and 'excluded' in checks and w[0] == 'ok':
-        r0 = gen_ref(_plain(case), G.cat_identity)
+        r0 = gen_ref(_plain(case), G.cat_identity, identity=True)
         if r0[0] == 'ok':
             e = check_excluded(case, w[1], r0[1])
             if e:
